@@ -63,7 +63,8 @@ func TestVerif_C16_LinWait(t *testing.T) {
 		c.PreJoin = c.Tail == "remove-nonvoter"
 		dir, err := os.MkdirTemp("", "c16lw-")
 		if err != nil {
-			rt.Skip("tempdir")
+			rec.Label("inconclusive:tempdir")
+			return
 		}
 		defer os.RemoveAll(dir)
 		wd := time.AfterFunc(150*time.Second, func() {
